@@ -1,0 +1,245 @@
+//go:build verif
+
+// Contracts for package core (the builtins), read by /verif's VC generator (govc).
+// Comment-only. Kinds are taken from README.md (R) and tests/step*.mal (sA, sM, ...).
+package core
+
+//@ spec isSeq(v MalType) bool = is(v, List) || is(v, Vector)
+//@ spec elems(v MalType) []MalType = ite(is(v, List), v.(List).Val, v.(Vector).Val)
+
+// ---- sequences ----------------------------------------------------------------------
+
+// count: length of list, vector, map, set; nil is 0 (sA)
+//@ func count(seq) (n, err)
+//@   ensures implies(is(seq, List), err == nil && n == len(seq.(List).Val))
+//@   ensures implies(is(seq, Vector), err == nil && n == len(seq.(Vector).Val))
+//@   ensures implies(is(seq, HashMap), err == nil && n == len(seq.(HashMap).Val))
+//@   ensures implies(is(seq, Set), err == nil && n == len(seq.(Set).Val))
+//@   ensures implies(seq == nil, err == nil && n == 0)
+//@   ensures implies(seq != nil && !isSeq(seq) && !is(seq, HashMap) && !is(seq, Set), err != nil)
+
+//@ func empty_Q(seq) (r, err)
+//@   ensures implies(isSeq(seq), err == nil && r == (len(elems(seq)) == 0))
+//@   ensures implies(is(seq, HashMap), err == nil && r == (len(seq.(HashMap).Val) == 0))
+//@   ensures implies(is(seq, Set), err == nil && r == (len(seq.(Set).Val) == 0))
+//@   ensures implies(seq == nil, err == nil && r)
+//@   ensures implies(seq != nil && !isSeq(seq) && !is(seq, HashMap) && !is(seq, Set), err != nil)
+
+// first: first element; nil for nil or empty (sA)
+//@ func first(seq) (r, err)
+//@   ensures implies(seq == nil, err == nil && r == nil)
+//@   ensures implies(isSeq(seq) && len(elems(seq)) == 0, err == nil && r == nil)
+//@   ensures implies(isSeq(seq) && len(elems(seq)) > 0, err == nil && r == elems(seq)[0])
+//@   ensures implies(seq != nil && !isSeq(seq), err != nil)
+
+// rest: list of all but the first element; () for nil or empty (sA)
+//@ func rest(seq) (r, err)
+//@   ensures implies(seq == nil || (isSeq(seq) && len(elems(seq)) == 0), err == nil && is(r, List) && len(r.(List).Val) == 0)
+//@   ensures implies(isSeq(seq) && len(elems(seq)) > 0, err == nil && is(r, List) && len(r.(List).Val) == len(elems(seq)) - 1 && forall(j, 0, len(elems(seq)) - 1, r.(List).Val[j] == elems(seq)[j+1]))
+//@   ensures implies(seq != nil && !isSeq(seq), err != nil)
+
+// nth: element at index; out of range is an error (sA)
+//@ func nth(seq, idx) (r, err)
+//@   ensures implies(isSeq(seq) && 0 <= idx && idx < len(elems(seq)), err == nil && r == elems(seq)[idx])
+//@   ensures implies(isSeq(seq) && idx >= len(elems(seq)), err != nil)
+//@   ensures implies(!isSeq(seq), err != nil)
+
+// cons: list with the element in front (sA)
+//@ func cons(x, s) (r, err)
+//@   ensures implies(isSeq(s), err == nil && len(r.Val) == len(elems(s)) + 1 && r.Val[0] == x && forall(j, 0, len(elems(s)), r.Val[j+1] == old(elems(s)[j])))
+//@   ensures implies(!isSeq(s), err != nil)
+
+// vec: vector with the same elements (sF)
+//@ func vec(seq) (r, err)
+//@   ensures implies(isSeq(seq), err == nil && is(r, Vector) && len(r.(Vector).Val) == len(elems(seq)) && forall(j, 0, len(elems(seq)), r.(Vector).Val[j] == elems(seq)[j]))
+//@   ensures implies(!isSeq(seq) && !is(seq, Set), err != nil)
+
+// window(r, s, from, n): r has n elements and r[j] == s[from+j]
+//@ spec window(r []MalType, s []MalType, from int, n int) bool = len(r) == n && forall(j, 0, n, r[j] == s[from+j])
+
+// take n s: list of the first min(max(n,0),len) elements; nil gives () (sM)
+//@ func take(n, arg) (r, err)
+//@   ensures implies(isSeq(arg), err == nil && is(r, List) && window(r.(List).Val, elems(arg), 0, min(max(n, 0), len(elems(arg)))))
+//@   ensures implies(arg == nil, err == nil && is(r, List) && len(r.(List).Val) == 0)
+//@   ensures implies(arg != nil && !isSeq(arg), err != nil)
+//@   loop 1 invariant 0 <= i && i <= len(arg.Val) && (i <= elems || i == 0) && window(new_list.Val, arg.Val, 0, i)
+//@   loop 2 invariant 0 <= i && i <= len(arg.Val) && (i <= elems || i == 0) && window(new_list.Val, arg.Val, 0, i)
+
+// drop n s: list of the elements from index max(n,0); nil gives () (sM)
+//@ func drop(n, arg) (r, err)
+//@   ensures implies(isSeq(arg), err == nil && is(r, List) && window(r.(List).Val, elems(arg), min(max(n, 0), len(elems(arg))), len(elems(arg)) - min(max(n, 0), len(elems(arg)))))
+//@   ensures implies(arg == nil, err == nil && is(r, List) && len(r.(List).Val) == 0)
+//@   ensures implies(arg != nil && !isSeq(arg), err != nil)
+//@   loop 1 invariant n <= i && (i <= len(arg.Val) || i == n) && window(new_list.Val, arg.Val, n, max(i - n, 0))
+//@   loop 2 invariant n <= i && (i <= len(arg.Val) || i == n) && window(new_list.Val, arg.Val, n, max(i - n, 0))
+
+// drop-last n s: list of all but the last max(n,0) elements (sM)
+//@ func drop_last(n, arg) (r, err)
+//@   ensures implies(isSeq(arg), err == nil && is(r, List) && window(r.(List).Val, elems(arg), 0, max(len(elems(arg)) - max(n, 0), 0)))
+//@   ensures implies(arg == nil, err == nil && is(r, List) && len(r.(List).Val) == 0)
+//@   ensures implies(arg != nil && !isSeq(arg), err != nil)
+//@   loop 1 invariant 0 <= i && (i <= len(arg.Val) - n || i == 0) && window(new_list.Val, arg.Val, 0, i)
+//@   loop 2 invariant 0 <= i && (i <= len(arg.Val) - n || i == 0) && window(new_list.Val, arg.Val, 0, i)
+
+// take-last n s: list of the last min(max(n,0),len) elements; nil when that is empty (sM)
+//@ func take_last(elems, arg) (r, err)
+//@   ensures implies(isSeq(arg) && min(max(elems, 0), len(elems(arg))) > 0, err == nil && is(r, List) && window(r.(List).Val, elems(arg), len(elems(arg)) - min(max(elems, 0), len(elems(arg))), min(max(elems, 0), len(elems(arg)))))
+//@   ensures implies(isSeq(arg) && min(max(elems, 0), len(elems(arg))) == 0, err == nil && r == nil)
+//@   ensures implies(arg == nil, err == nil && r == nil)
+//@   ensures implies(arg != nil && !isSeq(arg), err != nil)
+//@   loop 1 invariant start <= i && i <= len(arg.Val) && window(new_list.Val, arg.Val, start, i - start)
+//@   loop 2 invariant start <= i && i <= len(arg.Val) && window(new_list.Val, arg.Val, start, i - start)
+
+// range a b: vector of the integers a .. b-1 (R, sM)
+//@ func rAnge(from, to) (r, err)
+//@   ensures err == nil && len(r.Val) == max(to - from, 0) && forall(j, 0, len(r.Val), r.Val[j] == val(from + j))
+//@   loop 1 invariant from <= i && (i <= to || i == from) && len(value) == i - from && forall(j, 0, i - from, value[j] == val(from + j))
+
+// subvec v a [b]: vector of v[a..b), b defaults to the length (R)
+//@ func subvec(args) (r, err)
+//@   ensures implies(err == nil && len(args) == 2 && is(args[0], Vector) && is(args[1], int), is(r, Vector) && window(r.(Vector).Val, args[0].(Vector).Val, args[1].(int), len(args[0].(Vector).Val) - args[1].(int)))
+//@   ensures implies(err == nil && len(args) == 3 && is(args[0], Vector) && is(args[1], int) && is(args[2], int), is(r, Vector) && window(r.(Vector).Val, args[0].(Vector).Val, args[1].(int), args[2].(int) - args[1].(int)))
+//@   ensures implies(len(args) >= 1 && !is(args[0], Vector), err != nil)
+
+// ---- maps and sets ------------------------------------------------------------------
+
+// get m k: value or nil for maps, the member or nil for sets, element for vectors/lists; nil map gives nil
+//@ func get(hm, key) (r, err)
+//@   ensures implies(hm == nil, err == nil && r == nil)
+//@   ensures implies(is(hm, HashMap) && is(key, string), err == nil && r == ite(has(hm.(HashMap).Val, key.(string)), hm.(HashMap).Val[key.(string)], nil))
+//@   ensures implies(is(hm, Set) && is(key, string), err == nil && r == ite(has(hm.(Set).Val, key.(string)), key, nil))
+//@   ensures implies(isSeq(hm) && is(key, int), err == nil && r == elems(hm)[key.(int)])
+//@   ensures implies(hm != nil && !is(key, string) && !is(key, int), err != nil)
+//@   ensures implies(hm != nil && !is(hm, HashMap) && !is(hm, Set) && !isSeq(hm), err != nil)
+
+// contains? m k
+//@ func contains_Q(hm, key) (r, err)
+//@   ensures implies(hm == nil, err == nil && !r)
+//@   ensures implies(is(hm, HashMap), err == nil && r == has(hm.(HashMap).Val, key))
+//@   ensures implies(is(hm, Set), err == nil && r == has(hm.(Set).Val, key))
+//@   ensures implies(hm != nil && !is(hm, HashMap) && !is(hm, Set), err != nil)
+
+// copies used by assoc/dissoc/conj: a fresh container with the same contents
+//@ func copy_hash_map(hm) (r)
+//@   ensures fresh(r.Val) && len(r.Val) == len(hm.Val) && forallkey(k, has(r.Val, k) == has(hm.Val, k)) && forallkey(k, implies(has(hm.Val, k), r.Val[k] == hm.Val[k]))
+//@   loop 1 invariant fresh(new_hm.Val) && forallkey(k, has(new_hm.Val, k) == visited(k)) && forallkey(k, implies(visited(k), new_hm.Val[k] == hm.Val[k]))
+
+//@ func copy_set(s) (r)
+//@   ensures fresh(r.Val) && len(r.Val) == len(s.Val) && forallkey(k, has(r.Val, k) == has(s.Val, k))
+//@   loop 1 invariant fresh(new_s.Val) && forallkey(k, has(new_s.Val, k) == visited(k))
+
+//@ func copy_vector(v) (r)
+//@   ensures fresh(r.Val) && window(r.Val, v.Val, 0, len(v.Val))
+
+// keys / vals: a list with one element per key, every element a key (a value of a key)
+//@ func keys(hm) (r, err)
+//@   ensures implies(is(hm, HashMap), err == nil && len(r.Val) == len(hm.(HashMap).Val) && forall(j, 0, len(r.Val), is(r.Val[j], string) && has(hm.(HashMap).Val, r.Val[j].(string))))
+//@   ensures implies(!is(hm, HashMap), err != nil)
+//@   loop 1 invariant len(slc) == visitedCount() && forall(j, 0, len(slc), is(slc[j], string) && has(hm.Val, slc[j].(string)))
+
+//@ func vals(hm) (r, err)
+//@   ensures implies(is(hm, HashMap), err == nil && len(r.Val) == len(hm.(HashMap).Val) && forall(j, 0, len(r.Val), existskey(k, has(hm.(HashMap).Val, k) && r.Val[j] == hm.(HashMap).Val[k])))
+//@   ensures implies(!is(hm, HashMap), err != nil)
+//@   loop 1 invariant len(slc) == visitedCount() && forall(j, 0, len(slc), existskey(k, has(hm.(HashMap).Val, k) && slc[j] == hm.(HashMap).Val[k]))
+
+// assocModel(r, s, a, n): r is s updated with the n key/value pairs a[1],a[2], a[3],a[4], ...
+// in order (later pairs win): same domain plus the new keys, untouched keys keep their
+// value, each new key maps to the value of its last occurrence.
+//@ spec isNewKey(a []MalType, n int, k string) bool = exists(j, 0, n, a[1+2*j] == val(k))
+//@ spec assocModel(r map[string]MalType, s map[string]MalType, a []MalType, n int) bool = forallkey(k, has(r, k) == (has(s, k) || isNewKey(a, n, k))) && forallkey(k, implies(has(s, k) && !isNewKey(a, n, k), r[k] == s[k])) && forall(j, 0, n, implies(forall(i, j+1, n, a[1+2*i] != a[1+2*j]), r[a[1+2*j].(string)] == a[2+2*j]))
+//@ spec keysAreStrings(a []MalType, n int) bool = forall(j, 0, n, is(a[1+2*j], string))
+
+// assoc m k v ...: map updated left to right (fresh); vector positions replaced; set members added
+//@ func assoc(a) (r, err)
+//@   ensures implies(len(a) >= 1 && is(a[0], HashMap) && err == nil, len(a) >= 3 && len(a) % 2 == 1 && keysAreStrings(a, (len(a)-1)/2) && is(r, HashMap) && fresh(r.(HashMap).Val) && assocModel(r.(HashMap).Val, a[0].(HashMap).Val, a, (len(a)-1)/2))
+//@   ensures implies(len(a) >= 3 && len(a) % 2 == 1 && is(a[0], HashMap) && keysAreStrings(a, (len(a)-1)/2), err == nil)
+//@   ensures implies(len(a) >= 1 && is(a[0], Set) && err == nil, is(r, Set) && fresh(r.(Set).Val) && forallkey(k, has(r.(Set).Val, k) == (has(a[0].(Set).Val, k) || exists(j, 1, len(a), a[j] == val(k)))))
+//@   ensures implies(len(a) >= 1 && !is(a[0], HashMap) && !is(a[0], Vector) && !is(a[0], Set), err != nil)
+//@   loop 1 invariant i % 2 == 1 && 1 <= i && i <= len(a) && fresh(new_hm.Val) && keysAreStrings(a, (i-1)/2) && assocModel(new_hm.Val, ms.Val, a, (i-1)/2)
+//@   loop 3 invariant fresh(new_s.Val) && forallkey(k, has(new_s.Val, k) == (has(ms.Val, k) || exists(j, 1, rangeindex + 2, a[j] == val(k))))
+
+// dissoc m k ...: map or set without the keys (fresh)
+//@ func dissoc(a) (r, err)
+//@   ensures implies(len(a) >= 2 && is(a[0], HashMap) && err == nil, is(r, HashMap) && fresh(r.(HashMap).Val) && forallkey(k, has(r.(HashMap).Val, k) == (has(a[0].(HashMap).Val, k) && !exists(j, 1, len(a), a[j] == val(k)))) && forallkey(k, implies(has(r.(HashMap).Val, k), r.(HashMap).Val[k] == a[0].(HashMap).Val[k])))
+//@   ensures implies(len(a) >= 2 && is(a[0], Set) && err == nil, is(r, Set) && fresh(r.(Set).Val) && forallkey(k, has(r.(Set).Val, k) == (has(a[0].(Set).Val, k) && !exists(j, 1, len(a), a[j] == val(k)))))
+//@   ensures implies(len(a) < 2, err != nil)
+//@   ensures implies(len(a) >= 2 && !is(a[0], HashMap) && !is(a[0], Set), err != nil)
+//@   loop 1 invariant 1 <= i && i <= len(a) && fresh(new_hm.Val) && forallkey(k, has(new_hm.Val, k) == (has(ms.Val, k) && !exists(j, 1, i, a[j] == val(k)))) && forallkey(k, implies(has(new_hm.Val, k), new_hm.Val[k] == ms.Val[k]))
+//@   loop 2 invariant fresh(new_s.Val) && forallkey(k, has(new_s.Val, k) == (has(ms.Val, k) && !exists(j, 1, rangeindex + 2, a[j] == val(k))))
+
+// conj: list: new elements prepended in reverse; vector: appended (fresh array); map: pairs
+// assoc'd; set: members added (sA, sF)
+//@ func conj(a) (r, err)
+//@   ensures implies(len(a) >= 1 && is(a[0], List), err == nil && is(r, List) && len(r.(List).Val) == len(a[0].(List).Val) + len(a) - 1 && forall(j, 0, len(a) - 1, r.(List).Val[j] == a[len(a)-1-j]) && forall(j, 0, len(a[0].(List).Val), r.(List).Val[len(a)-1+j] == a[0].(List).Val[j]))
+//@   ensures implies(len(a) >= 1 && is(a[0], Vector), err == nil && is(r, Vector) && fresh(r.(Vector).Val) && len(r.(Vector).Val) == len(a[0].(Vector).Val) + len(a) - 1 && forall(j, 0, len(a[0].(Vector).Val), r.(Vector).Val[j] == a[0].(Vector).Val[j]) && forall(j, 0, len(a) - 1, r.(Vector).Val[len(a[0].(Vector).Val)+j] == a[1+j]))
+//@   ensures implies(len(a) >= 1 && is(a[0], HashMap) && err == nil, len(a) % 2 == 1 && keysAreStrings(a, (len(a)-1)/2) && is(r, HashMap) && fresh(r.(HashMap).Val) && assocModel(r.(HashMap).Val, a[0].(HashMap).Val, a, (len(a)-1)/2))
+//@   ensures implies(len(a) >= 1 && is(a[0], Set) && err == nil, is(r, Set) && fresh(r.(Set).Val) && forallkey(k, has(r.(Set).Val, k) == (has(a[0].(Set).Val, k) || exists(j, 1, len(a), a[j] == val(k)))))
+//@   ensures implies(len(a) >= 1 && !isSeq(a[0]) && !is(a[0], HashMap) && !is(a[0], Set), err != nil)
+//@   loop 1 invariant 0 <= i && i <= len(a) - 1 && len(new_slc) == len(a) - 1 - i && forall(j, 0, len(new_slc), new_slc[j] == a[len(a)-1-j])
+//@   loop 2 invariant i % 2 == 1 && 1 <= i && i <= len(a) && fresh(new_hm.Val) && keysAreStrings(a, (i-1)/2) && assocModel(new_hm.Val, seq.Val, a, (i-1)/2)
+//@   loop 3 invariant fresh(new_s.Val) && forallkey(k, has(new_s.Val, k) == (has(seq.Val, k) || exists(j, 1, rangeindex + 2, a[j] == val(k))))
+
+// merge a b: nil,nil gives nil; otherwise the union with b winning, nil as the empty map (sE)
+//@ func mErge(_hm0, _hm1) (r, err)
+//@   ensures implies(_hm0 == nil && _hm1 == nil, err == nil && r == nil)
+//@   ensures implies(is(_hm0, HashMap) && is(_hm1, HashMap), err == nil && is(r, HashMap) && forallkey(k, has(r.(HashMap).Val, k) == (has(_hm0.(HashMap).Val, k) || has(_hm1.(HashMap).Val, k))) && forallkey(k, implies(has(_hm1.(HashMap).Val, k), r.(HashMap).Val[k] == _hm1.(HashMap).Val[k])) && forallkey(k, implies(has(_hm0.(HashMap).Val, k) && !has(_hm1.(HashMap).Val, k), r.(HashMap).Val[k] == _hm0.(HashMap).Val[k])))
+//@   ensures implies(_hm0 != nil && !is(_hm0, HashMap), err != nil)
+//@   ensures implies(_hm1 != nil && !is(_hm1, HashMap), err != nil)
+//@   loop 1 invariant fresh(merged.Val) && forallkey(k, has(merged.Val, k) == visited(k)) && forallkey(k, implies(visited(k), merged.Val[k] == hm0.Val[k]))
+//@   loop 2 invariant fresh(merged.Val) && forallkey(k, has(merged.Val, k) == (has(hm0.Val, k) || visited(k))) && forallkey(k, implies(visited(k), merged.Val[k] == hm1.Val[k])) && forallkey(k, implies(has(hm0.Val, k) && !visited(k), merged.Val[k] == hm0.Val[k]))
+
+// concat s...: list of all the elements in order; (concat) is (); the result is a fresh array
+//@ func concat(a) (r, err)
+//@   ensures implies(len(a) == 0, err == nil && is(r, List) && len(r.(List).Val) == 0)
+//@   ensures implies(len(a) == 1 && isSeq(a[0]), err == nil && is(r, List) && window(r.(List).Val, elems(a[0]), 0, len(elems(a[0]))))
+//@   ensures implies(len(a) == 2 && isSeq(a[0]) && isSeq(a[1]), err == nil && is(r, List) && len(r.(List).Val) == len(elems(a[0])) + len(elems(a[1])) && forall(j, 0, len(elems(a[0])), r.(List).Val[j] == elems(a[0])[j]) && forall(j, 0, len(elems(a[1])), r.(List).Val[len(elems(a[0]))+j] == elems(a[1])[j]))
+//@   ensures implies(exists(j, 0, len(a), !isSeq(a[j])), err != nil)
+//@   loop 1 invariant 1 <= i && i <= len(a) && (fresh(slc1) || cap(slc1) == 0) && forall(j, 0, i, isSeq(a[j])) && len(slc1) >= len(elems(a[0])) && forall(j, 0, len(elems(a[0])), slc1[j] == elems(a[0])[j]) && implies(i == 1, len(slc1) == len(elems(a[0]))) && implies(i == 2 && len(a) == 2, len(slc1) == len(elems(a[0])) + len(elems(a[1])) && forall(j, 0, len(elems(a[1])), slc1[len(elems(a[0]))+j] == elems(a[1])[j]))
+
+// seq: list/vector: list of the elements, nil when empty; string: list of its characters,
+// nil when empty; nil gives nil (sA); set: list of its members
+//@ func seq(seq) (r, err)
+//@   ensures implies(isSeq(seq) && len(elems(seq)) == 0, err == nil && r == nil)
+//@   ensures implies(isSeq(seq) && len(elems(seq)) > 0, err == nil && is(r, List) && window(r.(List).Val, elems(seq), 0, len(elems(seq))))
+//@   ensures implies(is(seq, string) && len(seq.(string)) == 0, err == nil && r == nil)
+//@   ensures implies(seq == nil, err == nil && r == nil)
+//@   ensures implies(is(seq, Set), err == nil && is(r, List) && len(r.(List).Val) == len(seq.(Set).Val) && forall(j, 0, len(r.(List).Val), is(r.(List).Val[j], string) && has(seq.(Set).Val, r.(List).Val[j].(string))))
+//@   loop 1 invariant len(slc) == visitedCount() && forall(j, 0, len(slc), is(slc[j], string) && has(arg.Val, slc[j].(string)))
+
+// rename-keys m r: keys of m renamed through r where present, values kept (sG)
+//@ func rename_keys(data, alternative) (r, err)
+//@   ensures implies(err == nil, forallkey(k, implies(has(data.Val, k) && !has(alternative.Val, k), has(r.Val, k))))
+//@   ensures implies(err == nil, forallkey(k, implies(has(data.Val, k) && has(alternative.Val, k) && is(alternative.Val[k], string), has(r.Val, alternative.Val[k].(string)))))
+//@   ensures implies(err == nil, forallkey(k, implies(has(r.Val, k), existskey(k0, has(data.Val, k0) && r.Val[k] == data.Val[k0] && (k == k0 && !has(alternative.Val, k0) || has(alternative.Val, k0) && alternative.Val[k0] == val(k))))))
+//@   loop 1 invariant fresh(output) && forallkey(k, implies(visited(k) && !has(alternative.Val, k), has(output, k))) && forallkey(k, implies(visited(k) && has(alternative.Val, k) && is(alternative.Val[k], string), has(output, alternative.Val[k].(string)))) && forallkey(k, implies(has(output, k), existskey(k0, visited(k0) && has(data.Val, k0) && output[k] == data.Val[k0] && (k == k0 && !has(alternative.Val, k0) || has(alternative.Val, k0) && alternative.Val[k0] == val(k)))))
+
+// hash-map k v ...: fold of the pairs; odd count or non-string key is an error; (hash-map) is the empty map
+//@ func hash_map(a) (r, err)
+//@   ensures implies(len(a) == 0, err == nil && is(r, HashMap) && len(r.(HashMap).Val) == 0)
+
+// apply f a... s: calls f with a... followed by the elements of s; the last argument must be sequential
+//@ func apply(ctx, a) (r, err)
+//@   ensures implies(len(a) < 2, err != nil)
+//@   ensures implies(len(a) >= 2 && !isSeq(a[len(a)-1]), err != nil)
+
+// map f s: list of the results in order, first error returned
+//@ func mAp(ctx, f, seq) (r, err)
+//@   ensures implies(err == nil, is(r, List) && len(r.(List).Val) == len(elems(seq)))
+//@   ensures implies(!isSeq(seq), err != nil)
+//@   loop 1 invariant len(results) == rangeindex + 1
+
+// nested access / update (sG): thin contracts (result kind and nil cases)
+//@ func get_in(hm, _pathVector) (r, err)
+//@   ensures implies(hm == nil, err == nil && r == nil)
+//@   ensures implies(hm != nil && !is(_pathVector, Vector), err != nil)
+//@   ensures implies(hm != nil && is(_pathVector, Vector) && len(_pathVector.(Vector).Val) == 0, err == nil && r == hm)
+
+//@ func update(ctx, hm, pos, f) (r, err)
+//@   ensures implies(hm == nil, err == nil && r == nil)
+
+//@ func update_in(ctx, seq, posVector, f) (r, err)
+//@   ensures implies(seq == nil, err == nil && r == nil)
+//@   ensures implies(seq != nil && len(posVector.Val) == 0, err == nil && r == seq)
+
+//@ func assoc_in(hm, posVector, data) (r, err)
+//@   ensures implies(len(posVector.Val) == 0, err == nil && r == hm)
